@@ -1,4 +1,5 @@
 import QModel.C08
+import QGen.C08
 import QProofs.Bridge
 import Mathlib.Algebra.Field.Basic
 import Mathlib.Algebra.BigOperators.Group.List.Basic
@@ -1017,4 +1018,79 @@ theorem qmpt_cols' (flag : Bool) (m : Nat) (rho : List K) (povm : List (List K))
       · cases hg
 
 end cols
+end QM.C08
+
+namespace QM.C08
+variable {K : Type}
+
+theorem truncNorm_length [Field K] [LinearOrder K] (eps : K) (row : List K) :
+    (truncNorm eps row).length = row.length := by simp [truncNorm]
+
+theorem gen_qst_row' [Field K] (flag : Bool) (r : K) (vec : List K) :
+    QGen.C08.qst_row flag r vec = qstRow flag r vec := by
+  cases flag <;> cases vec <;> simp [QGen.C08.qst_row, qstRow]
+
+theorem gen_qpt_row' [Field K] (flag : Bool) (n : Nat) (c : List K) :
+    QGen.C08.qpt_row flag n c = qptRow flag n c := by
+  cases flag <;> cases c <;> simp [QGen.C08.qpt_row, qptRow]
+
+theorem gen_povmt_row' [Field K] (flag : Bool) (r : K) (m : Nat) (rho : List K) (x : Nat) :
+    QGen.C08.povmt_row flag r m rho x = povmtRow flag r m rho x := by
+  cases flag
+  · simp [QGen.C08.povmt_row, povmtRow]
+  · simp only [QGen.C08.povmt_row, povmtRow, if_true]
+    cases h : List.drop (rho.length * (m - 1))
+        (zeros (x * rho.length) ++ rho ++ zeros ((m - 1 - x) * rho.length)) with
+    | nil => simp only [List.getElem?_nil]
+    | cons x0 rest => simp only [List.getElem?_cons_zero]
+
+/-- exact characterisation of the coded reshape -/
+theorem calcProbDists_iff [Field K] [LinearOrder K] (eps : K) (cs : List (Coeff K))
+    (var : List K) (dists : List (List K)) (hk : 0 < dists.length)
+    (hp : predict cs var = .ok dists.flatten) :
+    calcProbDists eps dists.length cs var = .ok (dists.map (truncNorm eps)) ↔
+      ∃ c, ∀ d ∈ dists, d.length = c := by
+  constructor
+  · intro h
+    unfold calcProbDists at h
+    rw [hp] at h
+    simp only [bind, Except.bind, pure, Except.pure] at h
+    rw [if_neg (by omega)] at h
+    split at h
+    · cases h
+    · rename_i hdiv
+      injection h with h
+      refine ⟨dists.flatten.length / dists.length, ?_⟩
+      have hlen : dists.flatten.length = dists.length * (dists.flatten.length / dists.length) := by
+        have := Nat.div_add_mod dists.flatten.length dists.length
+        have h0 : dists.flatten.length % dists.length = 0 := by
+          by_contra hne; exact hdiv hne
+        omega
+      have hrows := chunks_row_length (dists.flatten.length / dists.length) dists.length dists.flatten hlen
+      have hl := congrArg (List.map List.length) h
+      simp only [List.map_map] at hl
+      intro d hd
+      obtain ⟨i, hi, rfl⟩ := List.mem_iff_getElem.1 hd
+      have hi' : i < (chunks (dists.flatten.length / dists.length) dists.length dists.flatten).length := by
+        simpa using hi
+      have e1 := congrArg (fun l => l[i]?) hl
+      simp only [List.getElem?_map, List.getElem?_eq_getElem hi, List.getElem?_eq_getElem hi',
+        Option.map_some, Function.comp_apply, truncNorm_length, Option.some.injEq] at e1
+      rw [← e1]
+      exact hrows _ (List.getElem_mem hi')
+  · rintro ⟨c, hd⟩
+    have hlen : dists.flatten.length = dists.length * c := by
+      rw [List.length_flatten]
+      have : dists.map List.length = List.replicate dists.length c := by
+        apply List.eq_replicate_iff.2
+        exact ⟨by simp, by intro x hx; obtain ⟨d, hd', rfl⟩ := List.mem_map.1 hx; exact hd d hd'⟩
+      rw [this]; simp
+    unfold calcProbDists
+    rw [hp]
+    simp only [bind, Except.bind, pure, Except.pure]
+    rw [if_neg (by omega), hlen, if_neg (by simp)]
+    rw [Nat.mul_div_cancel_left c hk]
+    congr 2
+    exact chunks_flatten' c dists hd
+
 end QM.C08
